@@ -49,6 +49,9 @@ class ConcreteAPI(object):
     def const(self, b):
         return bytes(b)
 
+    def concrete_mode(self):
+        pass
+
     def choose(self, name, n):
         v = self._get(name)
         if not (0 <= v < max(n, 1)):
